@@ -51,17 +51,24 @@ def main(pid, scenarios, run, budget_s=None):
         with open(sys.argv[2]) as f:
             req = json.load(f)
         tier = req.get('tier', 'quick')
-        budget = budget_s or (60 if tier == 'quick' else 600)
+        budget = req.get('budget') or budget_s or (60 if tier == 'quick' else 600)
         t0 = time.time()
         n = 0
         failed = req.get('failed', [])
         names = [x['name'] for x in failed]
         failures = {}
+        known_keys = set(req.get('known_keys', []))     # native keys of listed known findings (cross-check mode)
+        known_seen = {}
         for sc in scenarios(req.get('seed', 0), tier, failed):
             n += 1
             res = safe_run(run, sc)
             ok, detail = res[0], res[1]
             key = res[2] if len(res) > 2 else '*'
+            if not ok and key in known_keys:
+                known_seen[key] = known_seen.get(key, 0) + 1
+                if time.time() - t0 > budget:
+                    break
+                continue
             if not ok and key not in failures:
                 os.makedirs(req['outdir'], exist_ok=True)
                 path = os.path.join(req['outdir'], 'native_%s_%s.json' % (pid, ''.join(ch if ch.isalnum() else '_' for ch in key)))
@@ -74,7 +81,7 @@ def main(pid, scenarios, run, budget_s=None):
                     break
             if time.time() - t0 > budget:
                 break
-        print(json.dumps({'found': bool(failures), 'failures': list(failures.values()),
+        print(json.dumps({'found': bool(failures), 'failures': list(failures.values()), 'known_seen': known_seen, 'scenarios': n,
                           'summary': '%d native scenarios run in %.0fs, %d distinct failures' % (n, time.time() - t0, len(failures))}))
         return
     print('usage: --search request.json | --replay file')
